@@ -595,3 +595,37 @@ Proof.
   - exfalso. unfold hasf in Hc2. rewrite Z.land_0_l in Hc2. discriminate.
   - pose proof (getz_map_enum r_chfl (c_relays c) 0 a r Hin ltac:(lia)) as E. rewrite Z.sub_0_r in E. rewrite E. exact Hc2.
 Qed.
+
+(* ---------- the hypotheses are satisfiable, the conclusion is not vacuous ---------- *)
+(* two restoring relays, "on for 5 s" and "on for 7 s", power loss after 2 s (the state sector was written after 1 s) *)
+Definition two_cfg := mkcfg [rl 4 0 2 0; rl 5 1 2 0] false.
+Definition two_evs : list ev := [ESet 0 1 5000 1; ESet 1 1 7000 1; EAdv 2000000].
+Definition two_pre : st :=
+  let s := run_from true two_cfg (start true two_cfg) two_evs in
+  set_tb (now s) (set_cnt0 (c_boot2 two_cfg) (emit (OReboot (now s)) s)).
+Lemma restore_all_witness_thm :
+  wf_cfg two_cfg /\ NoDup (map r_gpio (c_relays two_cfg)) /\ NoDup (map r_chan (c_relays two_cfg)) /\
+  (length (c_relays two_cfg) <= 8)%nat /\ TrO two_pre /\ 0 <= cnt0 two_pre /\ tb two_pre <= now two_pre /\
+  NW (boot true two_cfg two_pre) /\
+  (fl_relay two_pre, fl_t2 two_pre) = ([1; 1; 0; 0; 0; 0; 0; 0], [4042; 6052; 0; 0; 0; 0; 0; 0]) /\
+  filter (fun o => match o with GArm t0 _ _ _ => now two_pre <=? t0 | _ => false end) (outs (boot true two_cfg two_pre)) =
+    [GArm 2050100 1 6052 0; GArm 2040080 0 4042 0].
+Proof.
+  assert (Wc : wf_cfg two_cfg) by (apply wf_cfgb_ok; vm_compute; reflexivity).
+  split; [exact Wc|].
+  split; [repeat constructor; cbn; intuition discriminate|]. split; [repeat constructor; cbn; intuition discriminate|].
+  split; [cbn; lia|]. split.
+  - assert (NR : NWrun true two_cfg (start true two_cfg) two_evs) by (apply nwrunb_ok; vm_compute; reflexivity).
+    assert (G : Good (run_from true two_cfg (start true two_cfg) two_evs)).
+    { apply run_good; [exact Wc|apply wf_evsb_ok; vm_compute; reflexivity| |exact NR].
+      apply start_good; [exact Wc|]. apply (NR 0%nat). }
+    pose proof (Tr_TrO _ (g_tr _ G)) as [TF TU]. unfold two_pre.
+    set (s := run_from true two_cfg (start true two_cfg) two_evs) in *.
+    constructor.
+    + intros * H. cbn [outs set_tb set_cnt0 emit set_outs] in H. destruct H as [H|H]; [discriminate|].
+      destruct (TF _ _ _ _ _ _ _ H) as (A & B & C & D). split; [auto|]. split; [auto|]. split; [exact C|].
+      right. exact D.
+    + exact TU.
+  - split; [vm_compute; discriminate|]. split; [vm_compute; discriminate|]. split; [apply nwb_NW; vm_compute; reflexivity|].
+    split; vm_compute; reflexivity.
+Qed.
